@@ -325,6 +325,12 @@ class SimulatorBase(
         if isinstance(initial_state, SimulationStateBase):
             return initial_state
 
+        if isinstance(initial_state, value.ProductState):
+            # A product state names its qubits: expand it in the qubit order of this simulation,
+            # not in the sorted order that `state_vector()` uses by default.
+            if set(initial_state.states) == set(qubits):
+                initial_state = initial_state.state_vector(qubit_order=qubits)
+
         classical_data = value.ClassicalDataDictionaryStore()
         if self._split_untangled_states:
             args_map: dict[cirq.Qid | None, TSimulationState] = {}
